@@ -51,7 +51,12 @@ def call_impl(status, kind, ex, rep, mode):
     from asyncfix.protocol.order_single import FIXNewOrderSingle
 
     try:
-        r = FIXNewOrderSingle.change_status(status, kind, ex, rep, raise_on_err=mode)
+        if mode == "default":
+            r = FIXNewOrderSingle.change_status(status, kind, ex, rep)        # the documented default: raise
+        elif mode == "positional":
+            r = FIXNewOrderSingle.change_status(status, kind, ex, rep, True)
+        else:
+            r = FIXNewOrderSingle.change_status(status, kind, ex, rep, raise_on_err=mode)
     except FIXError:
         return "raised"
     except Exception as e:  # noqa
@@ -70,13 +75,17 @@ def cases():
             return str(o.value) if (as_str and isinstance(o, enum.Enum)) else o
         for s, k, e, r, m in itertools.product(statuses, kinds, execs, reps, (True, False)):
             yield (v(s), v(k), v(e), v(r), m)
+        # the same table reached through the other calling conventions of the flag (omitted = raise; positional)
+        for s, k, e, r in itertools.product(statuses, kinds, execs[:3] + execs[-1:], reps):
+            yield (v(s), v(k), v(e), v(r), "default")
+            yield (v(s), v(k), v(e), v(r), "positional")
 
 
 def correspondence(ctx):
     drv = C.Driver()
     cs = list(cases())
     lines = [
-        "ord.cs %s %s %s %s %d" % (C.hx(mstr(s, 0)), C.hx(mstr(k, 0)), C.hx(mstr(e, 0)), C.hx(mstr(r, 0)), 1 if m else 0)
+        "ord.cs %s %s %s %s %d" % (C.hx(mstr(s, 0)), C.hx(mstr(k, 0)), C.hx(mstr(e, 0)), C.hx(mstr(r, 0)), 1 if m else 0)   # "default" / "positional" are truthy: raise mode
         for (s, k, e, r, m) in cs
     ]
     model = drv.batch(lines)
